@@ -23,6 +23,7 @@ RULE = (
     "non-round absolute loop times are generated; "
     "non-trivial = anything but value-before-deadline-without-cancel; distinct = distinct tuple"
 )
+RULE += '; the function may raise an Exception whose instance is falsy'
 LEVEL_TEXT = (
     "Single-fault enumeration: the caller cancellation is injected at every instant of a complete integer time grid "
     "around the function's end and the deadline, for every outcome kind; the oracle is a case analysis on the earliest "
@@ -41,7 +42,7 @@ REQUIRED_CLASSES = ["timeout-first", "cancel-first", "function-first", "tie", "f
 
 KINDS = ["value", "exc", "base", "selfcancel_raise", "selfcancel_task", "ignore"]
 # outcome kinds used by generated cases only (the enumerated grids keep the six above)
-EXTRA_KINDS = ["exc_timeout"]
+EXTRA_KINDS = ["exc_timeout", "exc_falsy"]
 
 
 class FnTimeout(TimeoutError):
@@ -54,6 +55,13 @@ class FnErr(Exception):
 
 class FnBase(BaseException):
     pass
+
+
+class FnFalsy(Exception):
+    """an exception whose instances are falsy (`__len__` of an error collection, `__bool__` of a result-like error)"""
+
+    def __bool__(self):
+        return False
 
 
 def run_case(case) -> Outcome:
@@ -91,6 +99,7 @@ def _run_timed(case, inject_iter):
     err = FnErr("fn")
     base = FnBase("fn")
     own_timeout = FnTimeout("fn's own timeout")
+    falsy = FnFalsy("fn")
     t_end = max(d, tau, c or 0, (case.get("bg") or {}).get("d", 0)) + e + 3
 
     async def main(loop):
@@ -124,6 +133,8 @@ def _run_timed(case, inject_iter):
                     raise err
                 if kind == "exc_timeout":
                     raise own_timeout
+                if kind == "exc_falsy":
+                    raise falsy
                 if kind == "base":
                     raise base
                 if kind == "selfcancel_raise":
@@ -259,6 +270,10 @@ def _run_timed(case, inject_iter):
                     expected.append(("FnTimeout (the function's own object)", first))
                     if rk == "exc" and rv is own_timeout and t == first:
                         ok = True
+                elif kind == "exc_falsy":
+                    expected.append(("FnFalsy (the function's own object)", first))
+                    if rk == "exc" and rv is falsy and t == first:
+                        ok = True
                 elif kind == "base":
                     expected.append(("FnBase", first))
                     if rk == "exc" and rv is base and t == first:
@@ -334,6 +349,7 @@ def enumerate_cases(tier):
         yield {"d": d, "steps": 1, "outcome": kind, "e": 2, "tau": tau, "c": c, "in_scope": True}
     for d, tau, c in itertools.product([0, 1, 2, 3], [1, 2, 3], [None, 0, 1, 2]):
         yield {"d": d, "steps": 1, "outcome": "exc_timeout", "e": 2, "tau": tau, "c": c}
+        yield {"d": d, "steps": 1, "outcome": "exc_falsy", "e": 2, "tau": tau, "c": c}
     # two overlapping calls of ONE decorated function: an earlier call ends (value / exception / its own timeout) while the
     # judged call is in flight
     for lead, dbg, out_bg, d, tau, c, kind in itertools.product([0.5, 1], [0.25, 1.5], ["value", "exc"], [1, 3], [1, 2], [None, 1.5], KINDS):
